@@ -2027,6 +2027,22 @@ def _branch_role_names(fi: FuncInfo, loop_or_gen) -> Set[str]:
     return set()
 
 
+def _splits_at_tilde(h: FuncInfo) -> bool:
+    """a helper that cuts its argument at the first "~": partition/split('~'), or find('~') with slices up to / from the position found"""
+    p0 = h.positional[0] if h.positional else None
+    for n in walk_local(h.node):
+        if isinstance(n, ast.Call) and isinstance(n.func, ast.Attribute) and n.func.attr in ('partition', 'split', 'find', 'index') and norm(n.func.value) == p0 \
+                and n.args and try_fold(n.args[0]) == (True, '~'):
+            if n.func.attr in ('partition', 'split'):
+                return True
+            pos = [x.targets[0].id for x in walk_local(h.node) if isinstance(x, ast.Assign) and x.value is n and isinstance(x.targets[0], ast.Name)]
+            rets = [x for x in walk_local(h.node) if isinstance(x, ast.Return) and isinstance(x.value, ast.Tuple) and x.value.elts]
+            if pos and rets and any(isinstance(r_.value.elts[0], ast.Subscript) and isinstance(r_.value.elts[0].slice, ast.Slice) and r_.value.elts[0].slice.lower is None
+                                    and norm(r_.value.elts[0].slice.upper) == pos[0] and norm(r_.value.elts[0].value) == p0 for r_ in rets):
+                return True
+    return False
+
+
 @rule('R138', 'a role read from a tree branch has its alignment suffix split off before the model is asked about it (":ARG1-of~e.3" does not END in -of)')
 def r138(ctx: Ctx) -> RuleReport:
     from ..cfg import reaching_defs
@@ -2056,6 +2072,10 @@ def r138(ctx: Ctx) -> RuleReport:
                     norm(nd.ast.value.func) == '_process_role' or (isinstance(nd.ast.value.func, ast.Attribute) and nd.ast.value.func.attr in ('partition', 'split', 'rpartition')
                                                                     and nd.ast.value.args and try_fold(nd.ast.value.args[0]) == (True, '~'))):
                 stripped.append(nd)
+            elif nd.kind == 'stmt' and isinstance(nd.ast, ast.Assign) and isinstance(nd.ast.value, ast.Call) and isinstance(nd.ast.value.func, ast.Name) \
+                    and nd.ast.value.func.id in fi.module.functions and _splits_at_tilde(fi.module.functions[nd.ast.value.func.id]) \
+                    and isinstance(nd.ast.targets[0], ast.Tuple) and nd.ast.targets[0].elts and norm(nd.ast.targets[0].elts[0]) == r:
+                stripped.append(nd)             # name, alignment = _split_role_alignment(role)
             elif nd.kind == 'stmt' and isinstance(nd.ast, ast.Assign) and isinstance(nd.ast.targets[0], ast.Tuple) and len(nd.ast.targets[0].elts) == 3 \
                     and isinstance(nd.ast.value, ast.Name) and nd.ast.value.id in fi.positional and norm(nd.ast.targets[0].elts[1]) == r:
                 via_param.append(nd.ast.value.id)              # _, role, target = triple   (triple is a parameter)
